@@ -199,6 +199,93 @@ fn search_server(seed: u64, budget: usize) -> Option<Value> {
     None
 }
 
+// ---------------------------------------------------------------------------------------------
+// C06: chains.  calls: 0 = plain, 1 = oneway, 2 = more.  script[i] for non-oneway call i:
+// (k continuing replies, final kind: 0 = success, 1 = declared error)
+fn run_chain(flags: &[u8], script: &[(usize, u8)], cuts: &[usize]) -> (Vec<String>, Vec<String>) {
+    use futures_util::stream::StreamExt;
+    let mut wire = Vec::new();
+    let mut expected = Vec::new();
+    let mut si = 0;
+    for (i, f) in flags.iter().enumerate() {
+        if *f == 1 { continue; }
+        let (k, fin) = script[si % script.len().max(1)];
+        si += 1;
+        let k = if *f == 2 { k } else { 0 };
+        for j in 0..k {
+            wire.extend_from_slice(format!(r#"{{"parameters":{{"a":{}}},"continues":true}}"#, 100 * i + j).as_bytes());
+            wire.push(0);
+            expected.push(format!("ok:{}:Some(true)", 100 * i + j));
+        }
+        if fin == 0 {
+            wire.extend_from_slice(format!(r#"{{"parameters":{{"a":{}}}}}"#, 100 * i + 99).as_bytes());
+            expected.push(format!("ok:{}:None", 100 * i + 99));
+        } else {
+            wire.extend_from_slice(format!(r#"{{"error":"a.Bad","parameters":{{"code":{}}}}}"#, i).as_bytes());
+            expected.push(format!("err:{i}"));
+        }
+        wire.push(0);
+    }
+    expected.push("end".into());
+    // a later, unrelated exchange on the same connection
+    wire.extend_from_slice(br#"{"parameters":{"a":424242}}"#);
+    wire.push(0);
+    expected.push("later:424242".into());
+    let mut calls_expected = Vec::new();
+    let sock = ScriptedSocket::new(&wire, cuts);
+    let script_h = sock.0.clone();
+    let mut conn = zlink_core::Connection::new(sock);
+    let mk = |i: usize, f: u8| Call::new(M::B { a: i as u32 }).set_oneway(f == 1).set_more(f == 2);
+    let mut got = Vec::new();
+    {
+        let mut chain = conn.chain_call::<M, P, E>(&mk(0, flags[0])).unwrap();
+        calls_expected.extend_from_slice(&serde_json::to_vec(&mk(0, flags[0])).unwrap());
+        calls_expected.push(0);
+        for (i, f) in flags.iter().enumerate().skip(1) {
+            chain = chain.append(&mk(i, *f)).unwrap();
+            calls_expected.extend_from_slice(&serde_json::to_vec(&mk(i, *f)).unwrap());
+            calls_expected.push(0);
+        }
+        let stream = block_on(chain.send(), 10).unwrap();
+        let mut stream = pin!(stream);
+        let mut n = 0;
+        loop {
+            n += 1;
+            if n > 200 { got.push("runaway".into()); break; }
+            match block_on(stream.next(), 1000) {
+                None => { got.push("end".into()); break; }
+                Some(Ok(Ok(r))) => got.push(format!("ok:{}:{:?}", r.parameters().map(|p| p.a).unwrap_or(0), r.continues())),
+                Some(Ok(Err(E::Bad { code }))) => got.push(format!("err:{code}")),
+                Some(Err(e)) => got.push(format!("transport:{e:?}")),
+            }
+        }
+    }
+    match block_on(conn.receive_reply::<P, E>(), 1000) {
+        Ok(Ok(r)) => got.push(format!("later:{}", r.parameters().map(|p| p.a).unwrap_or(0))),
+        other => got.push(format!("later-lost:{other:?}")),
+    }
+    let log = script_h.borrow().log.clone();
+    if log.len() != 1 || log[0] != calls_expected {
+        got.push(format!("writes:{:?}", log.iter().map(|w| show(w)).collect::<Vec<_>>()));
+    }
+    (expected, got)
+}
+
+fn search_chain(seed: u64, budget: usize) -> Option<Value> {
+    let mut rng = Rng(seed.wrapping_mul(0x9E3779B97F4A7C15) | 1);
+    for _ in 0..budget {
+        let n = 1 + rng.below(5);
+        let flags: Vec<u8> = (0..n).map(|_| rng.below(3) as u8).collect();
+        let script: Vec<(usize, u8)> = (0..n).map(|_| (rng.below(3), rng.below(2) as u8)).collect();
+        let cuts: Vec<usize> = match rng.below(3) { 0 => vec![], 1 => vec![1 + rng.below(9)], _ => (0..3).map(|_| 1 + rng.below(50)).collect() };
+        let (exp, got) = run_chain(&flags, &script, &cuts);
+        if exp != got {
+            return Some(json!({"kind":"chain","flags":flags,"script":script,"cuts":cuts,"expected":exp,"got":got}));
+        }
+    }
+    None
+}
+
 struct Rng(u64);
 impl Rng {
     fn next(&mut self) -> u64 {
@@ -269,6 +356,7 @@ fn main() {
             "recv" => search_recv(seed, budget, false),
             "recv_cancel" => search_recv(seed, budget, true),
             "server" => search_server(seed, budget / 10),
+            "chain" => search_chain(seed, budget / 10),
             _ => panic!("unknown kind"),
         };
         match found {
@@ -295,6 +383,20 @@ fn main() {
             let pend: Vec<usize> = w["pending_reads"].as_array().map(|a| a.iter().map(|x| x.as_u64().unwrap() as usize).collect()).unwrap_or_default();
             let (exp, got) = run_recv(&wire, &cuts, &pend);
             println!("wire     = {}", show(&wire));
+            println!("expected = {exp:?}");
+            println!("got      = {got:?}");
+            if exp != got {
+                println!("REPLAY: FAILS on the real code");
+                std::process::exit(1);
+            }
+            println!("REPLAY: passes on the real code");
+        }
+        Some("chain") => {
+            let flags: Vec<u8> = w["flags"].as_array().unwrap().iter().map(|x| x.as_u64().unwrap() as u8).collect();
+            let script: Vec<(usize, u8)> = w["script"].as_array().unwrap().iter().map(|x| (x[0].as_u64().unwrap() as usize, x[1].as_u64().unwrap() as u8)).collect();
+            let cuts: Vec<usize> = w["cuts"].as_array().unwrap().iter().map(|x| x.as_u64().unwrap() as usize).collect();
+            let (exp, got) = run_chain(&flags, &script, &cuts);
+            println!("flags (0 plain,1 oneway,2 more) = {flags:?} script = {script:?}");
             println!("expected = {exp:?}");
             println!("got      = {got:?}");
             if exp != got {
